@@ -229,7 +229,7 @@ package proxy
 //@   ensures [nil_only_if_none_available] result == nil ==> forall(k, 0, len(u.Hosts), !u.Hosts[k].Available())
 //@   loop 1 invariant 0 <= #i && #i <= len(pool) && pool == u.Hosts && (allUnavailable ==> forall(k, 0, #i, !pool[k].Available()))
 
-//@ unit setup_sweep props=C11 files=setup.go,upstream.go nilchecks=on nonnil_params=on dispenser_variants=on filter=`.`
+//@ unit setup_sweep props=C11 files=setup.go,upstream.go nilchecks=on nonnil_params=on dispenser_variants=on exclude=`staticUpstream\)\.(HealthCheckWorker|NewHost|Select|healthCheck|healthCheck\$1|resolveHost)$|headerReplacements\)\.Add$|proxy\.(NewStaticUpstreams|RegisterPolicy|parseUpstream|replacePort)$` filter=`.`
 //@ // Safety sweep of this directive's setup code: index, slice, division, nil-map store, nil dereference, explicit panic,
 //@ // and termination of the loops driven by the token cursor. No functional contract; callees in the dispenser through their contracts.
 //@ use casketfile/contracts_verif.go:dispenser_api
